@@ -294,6 +294,19 @@ func scenarioC08Random(c *Ctx, r *Rng, idx int) {
 			return
 		}
 	}
+	// every delivery is followed by a Flush before Close returns
+	lastDel, lastFlush := -1, -1
+	for i, e := range wr.order {
+		if e == "flush" {
+			lastFlush = i
+		} else if e != "close" {
+			lastDel = i
+		}
+	}
+	if lastDel > lastFlush {
+		fail("delivered-then-flushed-before-close-returns", fmt.Sprintf("a delivery after the last Flush: %v", wr.order))
+		return
+	}
 	if finalLen != wr.logLen {
 		fail("silent-after-close", fmt.Sprintf("%d reporter call(s) after the winning Close returned: %v", finalLen-wr.logLen, finalOrder[len(wr.order):]))
 		return
